@@ -188,6 +188,75 @@ fn run_floats<T: Flt>(rep: &Report, cli: &Cli) {
     }
 }
 
+/// OPTB: every byte value in every byte-valued field of the write-float options (decimal point,
+/// exponent character, each position of 1..3-byte NaN / infinity strings). Whatever `build()`
+/// accepts is a valid option set: writing NaN, +-infinity and finite values with it must emit
+/// only 7-bit ASCII and the facade must return the same bytes.
+fn run_option_bytes<T: Flt>(rep: &Report) {
+    let mut fam = Fam::new(rep, &format!("C17:{}:OPTB", T::NAME));
+    let f = T::FMT;
+    let fc = &facs::<T>()[0];
+    let vals = [f.inf_bits() | 1, f.inf_bits(), f.inf_bits() | f.sign_mask(), T::std_parse("1.5e300").or(T::std_parse("1.5e30")).unwrap(), T::std_parse("0.25").unwrap()];
+    let mut cands: Vec<(String, Result<WriteFloatOptions, lexical::Error>)> = Vec::new();
+    for b in 0..=255u8 {
+        cands.push((format!("decimal_point={:#04x}", b), WriteFloatOptions::builder().decimal_point(b).build()));
+        cands.push((format!("exponent={:#04x}", b), WriteFloatOptions::builder().exponent(b).build()));
+        for (base_n, base_i) in [(&b"N"[..], &b"I"[..]), (b"Na", b"In"), (b"NaN", b"Inf")] {
+            for pos in 0..base_n.len() {
+                let mut n = base_n.to_vec();
+                n[pos] = b;
+                let mut i = base_i.to_vec();
+                i[pos] = b;
+                let n: &'static [u8] = Box::leak(n.into_boxed_slice());
+                let i: &'static [u8] = Box::leak(i.into_boxed_slice());
+                cands.push((format!("nan_string={:?}", show_bytes(n)), WriteFloatOptions::builder().nan_string(Some(n)).build()));
+                cands.push((format!("inf_string={:?}", show_bytes(i)), WriteFloatOptions::builder().inf_string(Some(i)).build()));
+            }
+        }
+    }
+    for (oname, r) in cands {
+        fam.states += 1;
+        fam.cases += 1;
+        let o = match r {
+            Ok(o) => o,
+            Err(_) => {
+                fam.bump("rejected_by_build");
+                continue;
+            }
+        };
+        fam.nontrivial += 1;
+        let size = (fc.core.bufsize)(&o);
+        let mut buf = vec![0u8; size];
+        for &bits in &vals {
+            let v = T::from_bits64(bits);
+            fam.calls += 2;
+            let key = format!("{}|optb|{}|{:#x}", T::NAME, oname, bits);
+            let (w, ts) = (fc.core.write, fc.to_string);
+            let a = guarded(|| {
+                let n = w(v, &mut buf[..], &o);
+                buf[..n].to_vec()
+            });
+            let b = guarded(|| ts(v, &o).into_bytes());
+            match (&a, &b) {
+                (Ok(x), Ok(y)) => {
+                    if x != y {
+                        rep.violation(key.clone(), format!("C17 [{}] to_string_with_options = {:?} but write_with_options = {:?} for {:#x}", oname, show_bytes(y), show_bytes(x), bits));
+                    }
+                    if x.iter().any(|&c| c >= 0x80) {
+                        rep.violation(key.clone(), format!("C17 options with {} pass build() but the output {:?} of {:#x} has a non-ASCII byte", oname, show_bytes(x), bits));
+                    }
+                }
+                (Err(_), Err(_)) => fam.bump("both_panic"),
+                _ => rep.violation(key.clone(), format!("C17 [{}] core {:?} vs facade {:?} for {:#x}", oname, a.as_ref().map(|x| show_bytes(x)), b.as_ref().map(|x| show_bytes(x)), bits)),
+            }
+        }
+        if fam.want_sample() {
+            rep.sample(format!("{} {} accepted by build()", fam.name, oname));
+        }
+    }
+    fam.finish();
+}
+
 fn run_default<T: Flt>(rep: &Report, cli: &Cli) {
     let mut fam = Fam::new(rep, &format!("C17:{}:default", T::NAME));
     let mut buf = [0u8; 256];
@@ -276,6 +345,8 @@ fn main() {
     let rep = Report::new("C17", config_name(), &cli.tier);
     run_default::<f64>(&rep, &cli);
     run_default::<f32>(&rep, &cli);
+    run_option_bytes::<f64>(&rep);
+    run_option_bytes::<f32>(&rep);
     run_floats::<f64>(&rep, &cli);
     run_floats::<f32>(&rep, &cli);
     harness::for_each_int_type!(run_ints, &rep, &cli);
